@@ -19,6 +19,7 @@ class Tables:
         self.prefix_q = data["prefix_q"]
         self.qmap = {q["module"]: q for q in self.quantities}
         self.nbase = len(self.base)
+        self.reading_stats = data.get("reading_stats", {})
 
     def unit(self, module, name):
         for u in self.qmap[module]["units"]:
@@ -48,7 +49,11 @@ def translate(repo=None):
     import json
     data = uom2coq.tables_json(tables)
     j = json.dumps(data, ensure_ascii=False, indent=0, sort_keys=True)
+    import readings
+    rv, rstats, _survey = readings.emit_readings(tables)
     ch1 = C.write_if_changed(os.path.join(C.GEN, "SiTables.v"), v)
+    ch1 = C.write_if_changed(os.path.join(C.GEN, "SiReadings.v"), rv) or ch1
+    data["reading_stats"] = rstats
     C.write_if_changed(os.path.join(C.GEN, "si_tables.json"), j)
     return Tables(json.loads(j)), ch1
 
